@@ -242,7 +242,8 @@ def slots_of(spec):
 
 class Recipe:
     def __init__(self, name, kind, src, expect, alt=None, inputs=None, output=None):
-        self.name, self.kind, self.src, self.alt = name, kind, src, alt
+        self.name, self.kind, self.src = name, kind, src
+        self.alts = [] if alt is None else [alt] if isinstance(alt, str) else list(alt)  # other spellings of src
         if not isinstance(expect, dict):
             expect = {i: expect for i in INTERPS}
         self.expect = expect  # interp -> spec with placeholders
@@ -278,7 +279,8 @@ _OD = "OrderedDict"
 
 RECIPE_LIST = [
     # ---- terms -----------------------------------------------------------------------------------------
-    Recipe("var", "term", 'Variable("xq", Real)', _X, inputs={"xq": "Real"}, output="Real"),
+    Recipe("var", "term", 'Variable("xq", Real)', _X, inputs={"xq": "Real"}, output="Real",
+           alt=['Variable(name="xq", output=Real)', 'Variable(output=Real, name="xq")', 'Variable("xq", output=Real)']),
     Recipe("var7", "term", 'Variable("qq", Bint[7])', V("qq", "Bint[7]"), inputs={"qq": "Bint[7]"}, output="Bint[7]"),
     Recipe("num", "term", "Number(2.5)", ("Number", 2.5, "real"), alt='Number(2.5, "real")', inputs={}, output="Real"),
     Recipe(
@@ -297,7 +299,30 @@ RECIPE_LIST = [
     Recipe(
         "bin", "term", 'Variable("xq", Real) + Variable("yq", Real)',
         _lz(("Binary", ADD, _X, _Y), ("Contraction", NULL, ADD, frozenset(), (_X, _Y))),
+        alt=[
+            'Binary(ops.add, Variable("xq", Real), Variable("yq", Real))',
+            'Binary(op=ops.add, lhs=Variable("xq", Real), rhs=Variable("yq", Real))',
+            'Binary(ops.add, rhs=Variable("yq", Real), lhs=Variable("xq", Real))',
+            'Binary(ops.add, Variable("xq", Real), rhs=Variable("yq", Real))',
+            'Binary(rhs=Variable("yq", Real), lhs=Variable("xq", Real), op=ops.add)',
+        ],
         inputs={"xq": "Real", "yq": "Real"}, output="Real",
+    ),
+    Recipe(
+        "bsub", "term", 'Binary(ops.sub, Number(5.5), Variable("yq", Real))',
+        _lz(
+            ("Binary", OP("SubOp"), ("Number", 5.5, "real"), _Y),
+            # normal form of a - b:  a + b * (-1)
+            ("Contraction", NULL, ADD, frozenset(),
+             (("Number", 5.5, "real"), ("Contraction", NULL, MUL, frozenset(), (_Y, ("Number", -1, "real"))))),  # an int -1 with dtype "real"
+        ),
+        alt=[
+            'Binary(op=ops.sub, lhs=Number(5.5), rhs=Variable("yq", Real))',
+            'Binary(ops.sub, rhs=Variable("yq", Real), lhs=Number(5.5))',
+            'Binary(rhs=Variable("yq", Real), op=ops.sub, lhs=Number(5.5))',
+            'Number(5.5) - Variable("yq", Real)',
+        ],
+        inputs={"yq": "Real"}, output="Real",
     ),
     Recipe(
         "binT", "term", 'Tensor(s1, OrderedDict([("iq", Bint[2]), ("jq", Bint[2])])) + Variable("yq", Real)',
@@ -316,6 +341,15 @@ RECIPE_LIST = [
     Recipe(
         "red", "term", 'Variable("vq", Reals[2])[Variable("iq", Bint[2])].reduce(ops.add, "iq")',
         _lz(("Reduce", ADD, _VI, frozenset({_IB})), ("Contraction", ADD, NULL, frozenset({_IB}), (_VI,))),
+        alt=[
+            'Reduce(ops.add, Variable("vq", Reals[2])[Variable("iq", Bint[2])], frozenset({Variable("iq", Bint[2])}))',
+            'Reduce(op=ops.add, arg=Variable("vq", Reals[2])[Variable("iq", Bint[2])], '
+            'reduced_vars=frozenset({Variable("iq", Bint[2])}))',
+            'Reduce(reduced_vars=frozenset({Variable("iq", Bint[2])}), '
+            'arg=Variable("vq", Reals[2])[Variable("iq", Bint[2])], op=ops.add)',
+            'Reduce(ops.add, reduced_vars=frozenset({Variable("iq", Bint[2])}), '
+            'arg=Variable("vq", Reals[2])[Variable("iq", Bint[2])])',
+        ],
         inputs={"vq": "Reals[2]"}, output="Real",
     ),
     Recipe(
@@ -325,14 +359,47 @@ RECIPE_LIST = [
             ("Contraction", NULL, ADD, frozenset(), (_Y, _Z)),
             reflect_spec=("Subs", ("Binary", ADD, V("xq__B", "Real"), _Z), (("xq__B", _Y),)),
         ),
+        alt=[
+            'Subs(arg=Variable("xq", Real) + Variable("zq", Real), subs=(("xq", Variable("yq", Real)),))',
+            'Subs(subs=(("xq", Variable("yq", Real)),), arg=Variable("xq", Real) + Variable("zq", Real))',
+            '(Variable("xq", Real) + Variable("zq", Real))(xq=Variable("yq", Real))',
+            '(Variable("xq", Real) + Variable("zq", Real))(Variable("yq", Real))',
+        ],
         inputs={"yq": "Real", "zq": "Real"}, output="Real",
     ),
     Recipe(
+        # f(**kwargs): the substitution is ordered by f.inputs, not by the caller's keyword order
+        "subs2", "term", '(Variable("xq", Real) + Variable("zq", Real))(xq=Variable("yq", Real), zq=Variable("uq", Real))',
+        _lz(
+            ("Binary", ADD, _Y, V("uq", "Real")),
+            ("Contraction", NULL, ADD, frozenset(), (_Y, V("uq", "Real"))),
+            reflect_spec=("Subs", ("Binary", ADD, V("xq__B", "Real"), V("zq__B", "Real")),
+                          (("xq__B", _Y), ("zq__B", V("uq", "Real")))),
+        ),
+        alt=[
+            '(Variable("xq", Real) + Variable("zq", Real))(zq=Variable("uq", Real), xq=Variable("yq", Real))',
+            '(Variable("xq", Real) + Variable("zq", Real))(Variable("yq", Real), Variable("uq", Real))',
+            '(Variable("xq", Real) + Variable("zq", Real))(Variable("yq", Real), zq=Variable("uq", Real))',
+            'Subs(Variable("xq", Real) + Variable("zq", Real), (("xq", Variable("yq", Real)), ("zq", Variable("uq", Real))))',
+            'Subs(subs=(("xq", Variable("yq", Real)), ("zq", Variable("uq", Real))), arg=Variable("xq", Real) + Variable("zq", Real))',
+        ],
+        inputs={"yq": "Real", "uq": "Real"}, output="Real",
+    ),
+    Recipe(
         "lam", "term", 'Lambda(Variable("iq", Bint[2]), Variable("vq", Reals[2])[Variable("iq", Bint[2])])',
-        ("Lambda", _IB, _VI), inputs={"vq": "Reals[2]"}, output="Reals[2]",
+        ("Lambda", _IB, _VI),
+        alt=[
+            'Lambda(var=Variable("iq", Bint[2]), expr=Variable("vq", Reals[2])[Variable("iq", Bint[2])])',
+            'Lambda(expr=Variable("vq", Reals[2])[Variable("iq", Bint[2])], var=Variable("iq", Bint[2]))',
+        ],
+        inputs={"vq": "Reals[2]"}, output="Reals[2]",
     ),
     Recipe(
         "stack", "term", 'Stack("kq", (Variable("xq", Real), Variable("yq", Real)))', ("Stack", "kq", (_X, _Y)),
+        alt=[
+            'Stack(name="kq", parts=(Variable("xq", Real), Variable("yq", Real)))',
+            'Stack(parts=(Variable("xq", Real), Variable("yq", Real)), name="kq")',
+        ],
         inputs={"kq": _B2, "xq": "Real", "yq": "Real"}, output="Real",
     ),
     Recipe(
@@ -340,6 +407,12 @@ RECIPE_LIST = [
         'Contraction(ops.add, ops.mul, frozenset({Variable("iq", Bint[2])}), '
         'Variable("vq", Reals[2])[Variable("iq", Bint[2])], Variable("wq", Reals[2])[Variable("iq", Bint[2])])',
         ("Contraction", ADD, MUL, frozenset({_IB}), (_VI, _WI)),
+        alt=[
+            'Contraction(red_op=ops.add, bin_op=ops.mul, reduced_vars=frozenset({Variable("iq", Bint[2])}), '
+            'terms=(Variable("vq", Reals[2])[Variable("iq", Bint[2])], Variable("wq", Reals[2])[Variable("iq", Bint[2])]))',
+            'Contraction(terms=(Variable("vq", Reals[2])[Variable("iq", Bint[2])], Variable("wq", Reals[2])[Variable("iq", Bint[2])]), '
+            'reduced_vars=frozenset({Variable("iq", Bint[2])}), bin_op=ops.mul, red_op=ops.add)',
+        ],
         inputs={"vq": "Reals[2]", "wq": "Reals[2]"}, output="Real",
     ),
     Recipe(
